@@ -484,6 +484,74 @@ def semantics_tie(ctx):
     return n
 
 
+def lower_tie(ctx):
+    """exact output equality: real compile_ir lowering (_IRnodeLowerer, no optimiser) vs the Coq model Lower.lower_top
+    on seeded random trees; plus the permanent regression probe of `compile-ir-seq-structural-eq`."""
+    from vlib import c15_tree
+    from vyper.codegen.ir_node import IRnode
+    from vyper.compiler.settings import OptimizationLevel, Settings, anchor_settings
+    from vyper.evm.assembler import assembly_to_evm
+    from vyper.ir import compile_ir
+    from vyper.ir.compile_ir import _IRnodeLowerer
+    from vlib.evm import Chain
+    rnd = ctx.rng("lower")
+    want = 300 if ctx.tier != "thorough" else 3000
+    dup = ["seq", ["calldataload", 32], ["calldataload", 0], ["calldataload", 32]]
+    extra = [["mstore", 0, ["add", "x", dup]], ["seq", ["mload", 0], ["mload", 0], ["mload", 0]],
+             ["mstore", 0, ["seq", "x", "y", "x"]]]
+    cases = []
+    with anchor_settings(Settings(evm_version="cancun")):
+        while len(cases) < want:
+            t = extra.pop() if extra else c15_tree.gen_tree(rnd, rnd.choice([2, 3, 4, 5]))
+            t = ["with", "x", ["calldataload", 0], ["with", "y", ["calldataload", 32], t]]
+            try:
+                node = IRnode.from_list(t)
+                c, s0 = c15_tree.coq_of_node(node), c15_tree.show_node(node)
+            except Exception:  # noqa
+                continue
+            try:
+                asm = _IRnodeLowerer(OptimizationLevel.NONE).compile_to_assembly(node)
+                r = [c15_asm.show_item(x) for x in c15_asm.from_real(list(asm))]
+            except Exception as e:  # noqa
+                r = ["EXC:" + type(e).__name__]
+            cases.append((s0, c, r))
+    imports = ("From Verif Require Import Base.PyInt C15.Syntax C15.GenUtils C15.Peephole C15.Lower.\n"
+               "Open Scope string_scope.\n"
+               "Definition show_items (r : res (list item)) : list string := match r with Ok l => map show_item l "
+               "| Err TypeErr => [\"DECLINED\"] | Err Raised => [\"EXC\"] | Err _ => [\"E\"] end.\n")
+    outs = coqrun.eval_cases(imports, [f"show_items (lower_top {c})" for (_s, c, _r) in cases], "c15low",
+                             shard=(len(cases) + 2) // 3, timeout=220 if ctx.tier != "thorough" else 900)
+    declined, bad = 0, None
+    for (s0, _c, r), o in zip(cases, outs):
+        m = STRS.findall(o)
+        if m == ["DECLINED"]:
+            declined += 1
+            continue
+        if r[0].startswith("EXC") and m == ["EXC"]:
+            continue
+        if r != m and bad is None:
+            j = next((q for q in range(min(len(r), len(m))) if r[q] != m[q]), min(len(r), len(m)))
+            bad = {"tree": s0[:1500], "first_difference_at": j, "real": " ".join(r[max(0, j - 6):j + 8]),
+                   "model": " ".join(m[max(0, j - 6):j + 8])}
+    ctx.corr["lower_cases"] = len(cases)
+    ctx.corr["lower_cases_declined"] = declined
+    # regression probe (FIXED in /repo 16cacde): a valued seq element equal to the last one must still be popped
+    probe = ["with", "t", 9, ["seq", ["mstore", 0, ["add", "t", dup]], ["return", 0, 32]]]
+    asm = compile_ir.compile_to_assembly(IRnode.from_list(probe), OptimizationLevel.NONE)
+    chain = Chain("cancun")
+    res = chain.call(chain.set_code(None, assembly_to_evm(asm)[0]), (5).to_bytes(32, "big") + (100).to_bytes(32, "big"))
+    got = int.from_bytes(res.out, "big") if res.ok else None
+    if got != 109:
+        failing(ctx, "compile_ir leaves the value of a non-last seq element on the stack (structural `!=`)",
+                {"ir": repr(probe), "calldata_words": [5, 100], "expected": 109, "observed": got,
+                 "assembly": c15_asm.show(c15_asm.from_real(list(asm)))}, key="compile-ir-seq-structural-eq")
+    elif bad is not None:
+        ctx.violation("correspondence-broken", "Lower.v model != real compile_ir lowering (exact output)", bad)
+    if declined * 4 > len(cases):
+        ctx.violation("correspondence-broken", "the lowering model declines too many trees", {"declined": declined})
+    return len(cases)
+
+
 def glue_corpus(ctx):
     """legacy pipeline, optimize none vs gas vs codesize, same seeded ABI-derived call plan (boundary-biased arguments):
     status, returndata, logs, final storage must agree.  Catches optimiser mutants outside the modelled fragment."""
@@ -536,7 +604,8 @@ STATIC_FILES = ["C15/Syntax.v", "C15/WordFacts.v", "C15/Bytes.v", "C15/Peephole.
                 "C15/JumpSem.v", "C15/JumpSound.v", "C15/JumpSound2.v", "C15/JumpSound3.v", "C15/PropsPeephole.v"]
 # regenerated model first: any change in /repo's translated code re-checks every proof after it
 GEN_FILES = ["C15/GenUtils.v", "C15/Optimizer.v", "C15/OptTree.v", "C15/FoldSound.v", "C15/PropsFold.v", "C15/OptSound.v",
-             "C15/OptTreeSound.v", "C15/MergeSound.v", "C15/MemInst.v", "C15/PropsOpt.v"]
+             "C15/OptTreeSound.v", "C15/MergeSound.v", "C15/MemInst.v", "C15/PropsOpt.v",
+             "C15/Lower.v", "C15/LowerSound.v", "C15/PropsLower.v"]
 
 
 def _build(ctx):
@@ -545,7 +614,8 @@ def _build(ctx):
     bs = ctx.coq_build_cached(STATIC_FILES, timeout=1200)
     if not bs["ok"]:
         return bs
-    return ctx.coq_build_cached(GEN_FILES, deps=["C15/Syntax.v", "C15/WordFacts.v", "C15/Bytes.v"], timeout=1200)
+    return ctx.coq_build_cached(GEN_FILES, deps=["C15/Syntax.v", "C15/WordFacts.v", "C15/Bytes.v", "C15/Peephole.v"],
+                                timeout=1200)
 
 
 def prebuild(ctx):
@@ -580,8 +650,10 @@ def run(ctx):
     T["glue"] = round(time.time() - t0, 1); t0 = time.time()
     nsem = semantics_tie(ctx)
     T["semantics_tie"] = round(time.time() - t0, 1); t0 = time.time()
+    nlow = lower_tie(ctx) if (gen_err is None and (COQ / "C15" / "Lower.vo").exists()) else 0
+    T["lower_tie"] = round(time.time() - t0, 1); t0 = time.time()
     # ---- tie
-    n = gcalls + nsem
+    n = gcalls + nsem + nlow
     if model_ok:
         n2, f = binop_grid_tie(ctx, differ)
         n += n2
